@@ -11,15 +11,32 @@ from pathlib import Path
 
 from . import emit
 
-GENERATORS = [
-    ("Unicode", "gen_unicode"),
-    ("Consts", "gen_consts"),
-    ("Dispatch", "gen_dispatch"),
-    ("Workers", "gen_workers"),
-    ("PathIOTable", "gen_pathio"),
-    ("Logging", "gen_logging"),
-    ("Wiring", "gen_wiring"),
-]
+NAMES = {
+    "gen_unicode": "Unicode",
+    "gen_consts": "Consts",
+    "gen_dispatch": "Dispatch",
+    "gen_workers": "Workers",
+    "gen_pathio": "PathIOTable",
+    "gen_logging": "Logging",
+    "gen_wiring": "Wiring",
+    "gen_usermgr": "UserMgr",
+    "gen_timeouts": "Timeouts",
+    "gen_portpool": "PortPool",
+}
+
+
+def discover():
+    """every tools/py2v/gen_*.py is a generator; output name from NAMES, the module's OUT, or CamelCase"""
+    out = []
+    for f in sorted(Path(__file__).parent.glob("gen_*.py")):
+        mod = f.stem
+        out.append((NAMES.get(mod) or "".join(w.capitalize() for w in mod[4:].split("_")), mod))
+    # Unicode first (Lib/PyStr depends on it), stable order otherwise
+    out.sort(key=lambda x: (x[0] != "Unicode", x[0]))
+    return out
+
+
+GENERATORS = discover()
 
 
 def main():
